@@ -41,7 +41,10 @@ def install_enum_order(mode, seed=0):
         if mode == "reverse":
             names.reverse()
         elif mode == "shuffle":
-            random.Random(f"{seed}/{where}").shuffle(names)
+            # keyed on the directory's CONTENT, not its location: scratch paths differ from run to run and a replay
+            # must see the same permutation
+            tag = "|".join(repr(key(n)) for n in names)
+            random.Random(f"{seed}/{tag}").shuffle(names)
         _perm_stats["calls"] += 1
         if len(names) > 1 and names != sorted(names, key=key):
             _perm_stats["nonsorted"] += 1
